@@ -23,3 +23,15 @@ func verifSortedSetAddWindow() {
 		hook()
 	}
 }
+
+// VerifOnUpdateWindow, if set, is called by readableVariable.OnUpdate and readableSet.OnUpdate after the new callback was
+// registered and the current value was read (the value mutex has been released again) and before the callback is invoked
+// with that value. It exists only in verification builds (build tag "verif") and is used to let a writer run inside this
+// window deterministically.
+var VerifOnUpdateWindow func()
+
+func verifOnUpdateWindow() {
+	if hook := VerifOnUpdateWindow; hook != nil {
+		hook()
+	}
+}
